@@ -1394,15 +1394,19 @@ func validateBuildOptions(
 		if options.LegalComments.HasExternalFile() {
 			log.AddError(nil, logger.Range{}, "Cannot use linked or external legal comments without an output path")
 		}
+		// Note: Map iteration order is random, so don't report whichever one comes first
+		usesFileLoader, usesCopyLoader := false, false
 		for _, loader := range options.ExtensionToLoader {
 			if loader == config.LoaderFile {
-				log.AddError(nil, logger.Range{}, "Cannot use the \"file\" loader without an output path")
-				break
+				usesFileLoader = true
+			} else if loader == config.LoaderCopy {
+				usesCopyLoader = true
 			}
-			if loader == config.LoaderCopy {
-				log.AddError(nil, logger.Range{}, "Cannot use the \"copy\" loader without an output path")
-				break
-			}
+		}
+		if usesFileLoader {
+			log.AddError(nil, logger.Range{}, "Cannot use the \"file\" loader without an output path")
+		} else if usesCopyLoader {
+			log.AddError(nil, logger.Range{}, "Cannot use the \"copy\" loader without an output path")
 		}
 
 		// Use the current directory as the output directory instead of an empty
